@@ -274,7 +274,7 @@ func run1(c Case) (res Result) {
 	if c.Held {
 		ttl = 20 * time.Second // released explicitly after every request
 	}
-	pNode := lab.NewNode(lab.NodeConfig{Name: "P", ID: 0x1111, Dir: filepath.Join(base, "P"), Candidate: true, Leaser: litefs.NewStaticLeaser(true, "P", "http://placeholder"),
+	pNode := lab.NewNode(lab.NodeConfig{Name: "P", ID: 0xF00000000000A111 /* node IDs are random 64-bit values: the top bit is set half of the time */, Dir: filepath.Join(base, "P"), Candidate: true, Leaser: litefs.NewStaticLeaser(true, "P", "http://placeholder"),
 		HaltLockTTL: ttl, HaltAcquireTimeout: 60 * time.Millisecond, DemoteDelay: 1500 * time.Millisecond,
 		Configure: func(s *litefs.Store) { s.HaltLockMonitorInterval = 50 * time.Millisecond; s.Client = lfshttp.NewClient() }})
 	if err := pNode.Start(); err != nil {
